@@ -297,7 +297,11 @@ def evaluate(st0, m, name, lab, tier, out):
                 pass
         X = np.ascontiguousarray(X[:, keep])
         labels = [labels[k] for k in keep]
-        cells = np.asarray(m.element_finder()(*X))
+        try:
+            cells = np.asarray(m.element_finder()(*X))
+        except Exception:
+            # the batch still raises although every single query succeeds (reported by the locate items): go point by point
+            cells = np.array([int(np.asarray(m.element_finder()(*X[:, [k]]))[0]) for k in range(X.shape[1])], dtype=np.int64)
     npts = X.shape[1]
     interior = np.array([k for k in range(npts) if labels[k].startswith('cell ')])
     for ent in cat.entries(kind, wrappers=True):
